@@ -793,7 +793,8 @@ ERROR_REPLAYS = {"1d.": (replay_1d, {"nl": 2, "nr": 2}), "slices.": (replay_slic
 
 
 def main(tier):
-    bounds = {"1d": "coarse grids up to 2+1 points, 1 level and 1+1 points, 2 levels, infinite variation (quick); up to 3+3 points, 2 levels (thorough); finite/infinite activity and variation",
+    bounds = {"histories_and_variants": 'copula coupling: odd-odd increment after an even-odd / odd-even / even-even one on the same simulation object (one predecessor)',
+              "1d": "coarse grids up to 2+1 points, 1 level and 1+1 points, 2 levels, infinite variation (quick); up to 3+3 points, 2 levels (thorough); finite/infinite activity and variation",
               "copula": "2-d, coarse 3x3 -> fine 5x5, every parity class of the fine increment",
               "outside": "CouplingSDE (its jump coupling is the one checked here; its Euler recursion is C16); 3-d coupling; vector-returning samplers"}
     return run_check(PID, tier, harnesses(tier), expect=EXPECT, bounds=bounds, error_replays=ERROR_REPLAYS,
